@@ -74,6 +74,7 @@ type Expression interface {
 
 type Program struct {
 	Statements []Statement
+	EOF        token.Token // the end-of-input token; carries the comments after the last statement
 }
 
 func (p *Program) WriteTo(cw *CodeWriter) {
@@ -83,6 +84,7 @@ func (p *Program) WriteTo(cw *CodeWriter) {
 		}
 		stmt.WriteTo(cw)
 	}
+	cw.WriteLeadingComments(p.EOF.LeadingComments)
 }
 
 // Statements
